@@ -356,6 +356,79 @@ def _floor_half(e, n):
     return _half_verdict(e, n, lambda k: k // 2)
 
 
+def compose_eval_rule(ctx):
+    """CMP-EVAL: CompositeTransform and InverseTransform against their specification by partial
+    evaluation (nfstatic/peval.py): the object is built by evaluating __init__ on a list of k
+    uninterpreted stages, forward / inverse are evaluated on a symbolic input, and the resulting
+    terms must be  T_k(...T_1(x)) with log-det sum_i ld(T_i)  resp.  T_1^-1(...T_k^-1(x)) with
+    sum_i ld(T_i^-1) -- whatever loops, generators, helpers or stored sequences the code uses."""
+    from ..peval import PEval, Obj, Stage, Sym, Undecided as PUndecided, Raises as PRaises, mk_sum, show
+
+    p = ctx.p
+    res = RuleResult("CMP-EVAL", "CompositeTransform / InverseTransform evaluated with uninterpreted parts equal the composition: parts in the order given, inverses in reverse order, every log-det summed once")
+    comp = p.find_class("CompositeTransform", "nflows.transforms.base")
+    invt = p.find_class("InverseTransform", "nflows.transforms.base")
+    x, cx = ("x",), ("ctx",)
+    ks = range(1, 8) if getattr(ctx, "tier", "quick") == "thorough" else (1, 2, 3, 4)
+    for k in ks:
+        methods = {nm: fi.node for nm, fi in comp.methods.items()}
+        init = comp.methods.get("__init__")
+        obj = Obj({}, methods)
+        pe = PEval(obj)
+        try:
+            pe.call_method(init.node, [[Stage("T%d" % i) for i in range(1, k + 1)]])
+        except (PUndecided, PRaises) as ex:
+            res.undecide("CompositeTransform.__init__ with %d parts" % k, str(ex))
+            continue
+        for direction in ("forward", "inverse"):
+            fi = comp.methods.get(direction)
+            if fi is None:
+                raise AnalysisIncomplete("CompositeTransform.%s missing" % direction)
+            order = list(range(1, k + 1)) if direction == "forward" else list(range(k, 0, -1))
+            d = "fwd" if direction == "forward" else "inv"
+            want = x
+            lds = []
+            for i in order:
+                lds.append(("ld", "T%d" % i, d, want, cx))
+                want = ("out", "T%d" % i, d, want, cx)
+            want_ld = mk_sum(*lds)
+            # evaluate twice on the same object: the second call must give the same term
+            for call_no in (1, 2):
+                try:
+                    r = pe.call_method(fi.node, [Sym(x), Sym(cx)])
+                    if not (isinstance(r, tuple) and len(r) == 2 and all(isinstance(v, Sym) for v in r)):
+                        raise PUndecided("%s does not return a pair of tensors" % direction)
+                except PUndecided as ex:
+                    res.undecide("CompositeTransform.%s with %d parts" % (direction, k), str(ex))
+                    break
+                except PRaises as ex:
+                    res.fail(Finding("CMP-EVAL", fi.module, fi.qualname, ex.node if ex.node is not None else fi.node, "%s with %d parts raises: %s" % (direction, k, ex.what), construct="%s with %d parts" % (direction, k)))
+                    break
+                if r[0].term != want or r[1].term != want_ld:
+                    what = "outputs `%s` (the composition is `%s`)" % (show(r[0].term)[:110], show(want)[:110]) if r[0].term != want else "log-det `%s` (the composition gives `%s`)" % (show(r[1].term)[:110], show(want_ld)[:110])
+                    res.fail(Finding("CMP-EVAL", fi.module, fi.qualname, fi.node, "CompositeTransform.%s with %d part(s), call %d on the same object: %s" % (direction, k, call_no, what), construct="%s with %d parts" % (direction, k)))
+                    break
+            else:
+                res.ok("CompositeTransform.%s with %d part(s) = %s" % (direction, k, show(want)[:80]))
+    # InverseTransform
+    methods = {nm: fi.node for nm, fi in invt.methods.items()}
+    obj = Obj({}, methods)
+    pe = PEval(obj)
+    try:
+        pe.call_method(invt.methods["__init__"].node, [Stage("T")])
+        for direction, d in (("forward", "inv"), ("inverse", "fwd")):
+            fi = invt.methods.get(direction)
+            r = pe.call_method(fi.node, [Sym(x), Sym(cx)])
+            ok = isinstance(r, tuple) and len(r) == 2 and all(isinstance(v, Sym) for v in r) and r[0].term == ("out", "T", d, x, cx) and r[1].term == ("ld", "T", d, x, cx)
+            if ok:
+                res.ok("InverseTransform.%s = T.%s(inputs, context)" % (direction, "inverse" if d == "inv" else "forward"))
+            else:
+                res.fail(Finding("CMP-EVAL", fi.module, fi.qualname, fi.node, "InverseTransform.%s must return the wrapped transform's %s of (inputs, context); found `%s`" % (direction, "inverse" if d == "inv" else "forward", show(r[0].term)[:90] if isinstance(r, tuple) and r and isinstance(r[0], Sym) else r), construct="InverseTransform.%s" % direction))
+    except (PUndecided, PRaises) as ex:
+        res.undecide("InverseTransform", str(ex))
+    return res
+
+
 def multiscale_rule(ctx):
     """MS-SPLIT / MS-STATE by partial evaluation (nfstatic/peval.py): the object is *built* by
     evaluating __init__ and one add_transform call per stage on concrete integer shapes (each stage
@@ -548,8 +621,10 @@ def multiscale_rule(ctx):
 
 register(
     "C08",
-    [thread_rule, order_rule, swap_rule, multiscale_rule],
-    "CMP-THREAD: symbolic expansion of CompositeTransform._cascade: the returned outputs are component 0 of the loop function "
+    [compose_eval_rule, thread_rule, order_rule, swap_rule, multiscale_rule],
+    "CMP-EVAL: CompositeTransform (built by evaluating __init__ on k uninterpreted parts, k = 1..4) and InverseTransform are "
+    "partially evaluated; forward must be T_k(...T_1(x)) and inverse T_1^-1(...T_k^-1(x)) with each part's log-det summed once, "
+    "on the first and on the second call of the same object. CMP-THREAD: symbolic expansion of CompositeTransform._cascade: the returned outputs are component 0 of the loop function "
     "applied to the running outputs with the context, the returned log-det is zeros plus component 1 of the same call, and the "
     "loop iterates the given sequence in order. CMP-ORDER: forward passes the stored ModuleList, inverse a sequence that is "
     "provably (t.inverse for t in reversed list). CMP-SWAP: InverseTransform resolves forward to the wrapped inverse and vice "
